@@ -203,12 +203,62 @@ fn quiet_burst_body(n: usize) -> Result<(), String> {
     Ok(())
 }
 
+/// n tasks register one route each and send two messages on it
+fn many_tasks_body(n: usize) -> Result<(), String> {
+    let proxy = Arc::new(RouterProxy::new());
+    let log: Arc<Mutex<Vec<(usize, u32)>>> = Arc::new(Mutex::new(Vec::new()));
+    let (done_tx, done_rx) = crossbeam_channel::unbounded::<usize>();
+    let mut hs = Vec::new();
+    for i in 0..n {
+        let (pr, lg, dn) = (proxy.clone(), log.clone(), done_tx.clone());
+        hs.push(std::thread::spawn(move || -> Result<(), String> {
+            let (tx, rx) = ipc::channel::<u32>().map_err(|e| e.to_string())?;
+            let g = Guard { route: i, drops: Arc::new(Mutex::new(Vec::new())), done: dn };
+            pr.add_route(
+                rx.to_opaque(),
+                Box::new(move |m| {
+                    let _k = &g;
+                    lg.lock().unwrap().push((i, m.to::<u32>().unwrap_or(999_999)));
+                }),
+            );
+            tx.send(i as u32 * 10).map_err(|e| e.to_string())?;
+            tx.send(i as u32 * 10 + 1).map_err(|e| e.to_string())?;
+            Ok(())
+        }));
+    }
+    drop(done_tx);
+    for h in hs {
+        h.join().map_err(|_| "registering task panicked".to_string())??;
+    }
+    for _ in 0..n {
+        done_rx.recv().map_err(|_| "a callback was never dropped".to_string())?;
+    }
+    let lg = log.lock().unwrap().clone();
+    for i in 0..n {
+        let got: Vec<u32> = lg.iter().filter(|(r, _)| *r == i).map(|(_, v)| *v).collect();
+        if got != vec![i as u32 * 10, i as u32 * 10 + 1] {
+            return Err(format!("route {} of {}: handler saw {:?}", i, n, got));
+        }
+    }
+    std::mem::forget(proxy);
+    Ok(())
+}
+
 pub fn scenarios(tier: Tier) -> Vec<Scenario> {
     let mut v = Vec::new();
     for n in [9usize, 12, 33] {
         let mut cfg = sched_cfg();
         cfg.post_points = true;
         v.push(Scenario::new(format!("quiet burst of {} routes", n), cfg, if tier.is_quick() || n > 12 { 0 } else { 1 }, move || quiet_burst_body(n)));
+    }
+    {
+        // a long backlog on one route, and six registering tasks (few deviations)
+        let mut cfg = sched_cfg();
+        cfg.post_points = true;
+        cfg.strict_deviations = true;
+        let p = P { routes: vec![Route { kind: Kind::Callback, pre: 40, post: 10, by: 0, big: false, cb_yield: false }, Route { kind: Kind::Crossbeam, pre: 0, post: 50, by: 0, big: false, cb_yield: false }] };
+        v.push(Scenario::new("backlog 40+10 / 0+50 (every non-default choice counts)", cfg.clone(), if tier.is_quick() { 1 } else { 2 }, move || body(&p)));
+        v.push(Scenario::new("six registering tasks (every non-default choice counts)", cfg, if tier.is_quick() { 1 } else { 2 }, move || many_tasks_body(6)));
     }
     let mut add = |routes: Vec<Route>, bound: u32| {
         let p = P { routes };
